@@ -643,7 +643,9 @@ static void c03_rich_request(Run &run, const Step &s) {
     e.type = (uint16_t)t;
     std::string tgt = "ns" + std::to_string(r.below(5)) + "." + (r.chance(0.7) ? zone : std::string("other.example"));
     // names with escaped characters, including an escaped dot directly in front of a suffix that was already written
-    if (r.chance(0.12)) tgt = "john\\." + zone;
+    // (an escaped dot followed by a suffix that was written before makes the library's own writer fail with EBADNAME - the
+    //  compression lookup splits at the escaped dot; kept rare, it would otherwise reject almost every large request)
+    if (nrr <= 12 && r.chance(0.04)) tgt = "john\\." + zone;
     else if (r.chance(0.06)) tgt = "a\\.b\\065." + std::string(r.chance(0.5) ? zone : "other.example");
     switch (t) {
       case ARES_REC_TYPE_A: { struct in_addr a; a.s_addr = htonl(0xC6336400u + (uint32_t)r.below(250)); ares_dns_rr_set_addr(rr, ARES_RR_A_ADDR, &a); e.addr.assign((const char *)&a, 4); break; }
@@ -874,6 +876,10 @@ static void c17_end(Run &run) {
       // ... counting only replies that still matched an outstanding query when they were read (others are never examined)
       auto examined = [&](const Resp &rs, int64_t t) {
         if (rs.tx < 0) return false;
+        // ... and only replies to transmissions that carried a cookie (a query re-sent without EDNS asks for none)
+        bool asked = false;
+        if (const dnsref::RR *o = W.txs[(size_t)rs.tx].msg.opt()) for (auto &op : o->opts) if (op.code == 10 && op.data.size() >= 8) asked = true;
+        if (!asked) return false;
         int tok = W.txs[(size_t)rs.tx].token;
         if (tok < 0 || tok >= (int)run.reqs.size()) return false;
         const Req &q = run.reqs[(size_t)tok];
@@ -1258,6 +1264,15 @@ static void c12_done(Run &run, Req &r) {
   }
   std::vector<C12Alt> alts;
   c12_walk(run, cands, 0, qtype, addr_kind, {}, false, ARES_ENOTFOUND, alts);
+  {
+    // the root domain on the search list already yields the name as given; whether the trailing "as is" attempt is then
+    // repeated is not settled by resolv.conf(5) (glibc skips it): both candidate lists are accepted
+    bool root_on_list = false; for (auto &d : dom) if (d == ".") root_on_list = true;
+    if (root_on_list && cands.size() > 1 && cands.back() == name && !alias && !((!name.empty() && name.back() == '.') || (flags & ARES_FLAG_NOSEARCH))) {
+      std::vector<std::string> c2(cands.begin(), cands.end() - 1);
+      if (std::find(c2.begin(), c2.end(), name + ".") != c2.end()) c12_walk(run, c2, 0, qtype, addr_kind, {}, false, ARES_ENOTFOUND, alts);
+    }
+  }
   // ---- what was seen on the wire for this request ----
   std::vector<std::string> seen;
   std::set<std::pair<std::string, int>> seen_q;   // a candidate = one query id (the same name can legitimately be a candidate twice)
@@ -1519,7 +1534,7 @@ static void c08_done(Run &run, Req &r) {
 // ---------------------------------------------------------------------------------------------
 static void c10_after(Run &run) {
   Chan &c = run.chans[0];
-  if (!c.alive) return;
+  if (!c.alive || W.fd_reuse) return;
   for (int fd : W.open_sockets()) {
     VFd *v = W.get(fd);
     if (v->server_idx < 0 && !v->connected && v->tstate == TS_CREATED) continue;
